@@ -302,6 +302,10 @@ func drawJ2TEnvAt(w *W, exp []byte, jsLen int, stops []int) j2tEnv {
 	return e
 }
 
+// j2tExtraSteps: steps a conversion may legitimately need on top of its input-proportional budget (set by
+// worlds whose descriptors are very wide: every unset field costs a few Go calls whatever the input is).
+var j2tExtraSteps uint64
+
 type j2tOutcome struct {
 	Out      []byte
 	Err      error
@@ -321,7 +325,7 @@ func runJ2T(w *W, cv *j2t.BinaryConv, desc *thrift.TypeDescriptor, js []byte, en
 	// logical-step budget: the re-entry loop between Go and the native state machine passes a yield per
 	// round (handleError); a conversion that does not converge is a violation, not a hung worker
 	savedLimit := w.World.StepLimit
-	w.World.StepLimit = w.World.Steps + uint64(300*len(js)) + 100000
+	w.World.StepLimit = w.World.Steps + uint64(300*len(js)) + 100000 + j2tExtraSteps
 	defer func() { w.World.StepLimit = savedLimit }()
 	res.Facts = map[string]string{"api": "Do"}
 	if !env.DoInto {
